@@ -21,7 +21,10 @@ MIN_COLLATERAL = Fraction(1, 2)  # 0.5 ETH
 REDUCE_DEBT_BOUNTY = Fraction(2, 100)
 LIQUIDATION_BONUS = Fraction(11, 10)
 INDEX_SCALE = 10**4
-BAND = Fraction(1, 10**9)  # three-valued verdicts: relative band around a threshold in which either answer is fine
+# three-valued verdicts: relative band around a threshold in which either answer is fine. The only float arithmetic on the
+# way is math.log / math.pow in calc_twap_price: worst case about 2e-14 relative, largest deviation seen over 5,600 generated
+# runs 2.7e-15. 1e-11 leaves three orders of magnitude; the frontier requests at +-1e-10 are judged.
+BAND = Fraction(1, 10**11)
 PREC = 60
 
 
